@@ -223,7 +223,9 @@ impl<'a> Lexer<'a> {
                         let mut x: u32 = 0;
                         while let Some(cc) = self.peek().and_then(|d| d.to_digit(16)) {
                             self.next();
-                            x = 16 * x + cc;
+                            // saturate instead of overflowing: anything this large is
+                            // rejected as "too big" by char::from_u32 below
+                            x = x.saturating_mul(16).saturating_add(cc);
                         }
                         match expected {
                             Some(c) => {
